@@ -183,18 +183,21 @@ macro_rules! common_stubs {
     };
 }
 
-common_stubs! { 98,
-fn g1_uncompressed() {
-    let bytes: [u8; 96] = kani::any();
-    unsafe { INSUB = kani::any(); }
+fn load_g1u(bytes: &[u8; 96]) -> G1Uncompressed {
     let mut enc = G1Uncompressed::empty();
     let mut i = 0;
     while i < 96 {
         enc.as_mut()[i] = bytes[i];
         i += 1;
     }
+    enc
+}
+common_stubs! { 98,
+fn g1_uncompressed() {
+    // unchecked decoder = the decision list: flags, infinity/sort, coordinate range; parsed integers
+    let bytes: [u8; 96] = kani::any();
+    let enc = load_g1u(&bytes);
     let (sc, sx, sy) = spec_g1_uncompressed(&bytes);
-    // unchecked variant
     let got = enc.into_affine_unchecked();
     let inf = match &got { Ok(p) => p.is_zero(), _ => false };
     assert!(cat(&got, inf) == sc);
@@ -203,29 +206,53 @@ fn g1_uncompressed() {
         if !inf {
             assert!(raw(&x) == sx && raw(&y) == sy);
         }
-        // non-malleability: re-encoding reproduces the bytes
+    }
+    kani::cover!(sc == Cat::OkPoint, "finite point accepted");
+    std::mem::forget(got);
+}
+}
+common_stubs! { 98,
+fn g1_uncompressed_reencode() {
+    // non-malleability: whenever the bytes decode, re-encoding the point reproduces them
+    let bytes: [u8; 96] = kani::any();
+    let enc = load_g1u(&bytes);
+    let got = enc.into_affine_unchecked();
+    if let Ok(p) = &got {
         let re = G1Uncompressed::from_affine(*p);
         let mut j = 0;
         while j < 96 {
             assert!(re.as_ref()[j] == bytes[j]);
             j += 1;
         }
-        // checked variant = unchecked, then curve, then subgroup
-        let want = if !p.verif_is_on_curve() { Cat::NotOnCurve } else if unsafe { !INSUB } { Cat::NotInSubgroup } else { sc };
-        let chk = enc.into_affine();
-        let cinf = match &chk { Ok(q) => q.is_zero(), _ => false };
-        assert!(cat(&chk, cinf) == want);
-        if let Ok(q) = &chk {
-            assert!(q == p);
-        }
-        std::mem::forget(chk);
-    } else {
-        let chk = enc.into_affine();
-        assert!(cat(&chk, false) == sc);
-        std::mem::forget(chk);
     }
-    kani::cover!(sc == Cat::OkPoint, "finite point accepted");
+    kani::cover!(got.is_ok(), "accepted");
     std::mem::forget(got);
+}
+}
+common_stubs! { 98,
+fn g1_uncompressed_checked() {
+    // checked decoder = unchecked, then curve equation, then subgroup (in that order)
+    let bytes: [u8; 96] = kani::any();
+    unsafe { INSUB = kani::any(); }
+    let enc = load_g1u(&bytes);
+    let un = enc.into_affine_unchecked();
+    let chk = enc.into_affine();
+    match &un {
+        Ok(p) => {
+            let want = if !p.verif_is_on_curve() { Cat::NotOnCurve } else if unsafe { !INSUB } { Cat::NotInSubgroup } else if p.is_zero() { Cat::OkInf } else { Cat::OkPoint };
+            let cinf = match &chk { Ok(q) => q.is_zero(), _ => false };
+            assert!(cat(&chk, cinf) == want);
+            if let Ok(q) = &chk {
+                assert!(q == p);
+            }
+        }
+        Err(_) => {
+            assert!(cat(&chk, false) == cat(&un, false));
+        }
+    }
+    kani::cover!(chk.is_ok(), "accepted");
+    std::mem::forget(chk);
+    std::mem::forget(un);
 }
 }
 
@@ -369,16 +396,19 @@ fn mkfq2(l: [[u64; 6]; 2]) -> Fq2 {
     Fq2 { c0: mkfq(l[0]), c1: mkfq(l[1]) }
 }
 
-common_stubs! { 194,
-fn g2_uncompressed() {
-    let bytes: [u8; 192] = kani::any();
-    unsafe { INSUB = kani::any(); }
+fn load_g2u(bytes: &[u8; 192]) -> G2Uncompressed {
     let mut enc = G2Uncompressed::empty();
     let mut i = 0;
     while i < 192 {
         enc.as_mut()[i] = bytes[i];
         i += 1;
     }
+    enc
+}
+common_stubs! { 194,
+fn g2_uncompressed() {
+    let bytes: [u8; 192] = kani::any();
+    let enc = load_g2u(&bytes);
     let xc1 = be48(&bytes, 0, 0x1f);
     let xc0 = be48(&bytes, 48, 0xff);
     let yc1 = be48(&bytes, 96, 0xff);
@@ -402,24 +432,48 @@ fn g2_uncompressed() {
         if !inf {
             assert!(raw2(&x) == [xc0, xc1] && raw2(&y) == [yc0, yc1]);
         }
+    }
+    kani::cover!(sc == Cat::OkPoint, "finite point accepted");
+    std::mem::forget(got);
+}
+}
+common_stubs! { 194,
+fn g2_uncompressed_reencode() {
+    let bytes: [u8; 192] = kani::any();
+    let enc = load_g2u(&bytes);
+    let got = enc.into_affine_unchecked();
+    if let Ok(p) = &got {
         let re = G2Uncompressed::from_affine(*p);
         let mut j = 0;
         while j < 192 {
             assert!(re.as_ref()[j] == bytes[j]);
             j += 1;
         }
-        let want = if !p.verif_is_on_curve() { Cat::NotOnCurve } else if unsafe { !INSUB } { Cat::NotInSubgroup } else { sc };
-        let chk = enc.into_affine();
-        let cinf = match &chk { Ok(q) => q.is_zero(), _ => false };
-        assert!(cat(&chk, cinf) == want);
-        std::mem::forget(chk);
-    } else {
-        let chk = enc.into_affine();
-        assert!(cat(&chk, false) == sc);
-        std::mem::forget(chk);
     }
-    kani::cover!(sc == Cat::OkPoint, "finite point accepted");
+    kani::cover!(got.is_ok(), "accepted");
     std::mem::forget(got);
+}
+}
+common_stubs! { 194,
+fn g2_uncompressed_checked() {
+    let bytes: [u8; 192] = kani::any();
+    unsafe { INSUB = kani::any(); }
+    let enc = load_g2u(&bytes);
+    let un = enc.into_affine_unchecked();
+    let chk = enc.into_affine();
+    match &un {
+        Ok(p) => {
+            let want = if !p.verif_is_on_curve() { Cat::NotOnCurve } else if unsafe { !INSUB } { Cat::NotInSubgroup } else if p.is_zero() { Cat::OkInf } else { Cat::OkPoint };
+            let cinf = match &chk { Ok(q) => q.is_zero(), _ => false };
+            assert!(cat(&chk, cinf) == want);
+        }
+        Err(_) => {
+            assert!(cat(&chk, false) == cat(&un, false));
+        }
+    }
+    kani::cover!(chk.is_ok(), "accepted");
+    std::mem::forget(chk);
+    std::mem::forget(un);
 }
 }
 
